@@ -115,6 +115,8 @@ def _value_equality_approx_eq(
 def _value_equality_getstate(self: _SupportsValueEquality) -> dict[str, Any]:
     # clear cached hash value when pickling, see #6674
     state = self.__dict__
+    if self.__hash__ is None:
+        return state  # unhashable subclass of a hashable value-equality class
     hash_attr = _compat._method_cache_name(self.__hash__)
     if hash_attr in state:
         state = state.copy()
